@@ -91,6 +91,9 @@ META = dict(
                "exact rational arithmetic)",
 )
 
+META["rule"] += (
+    " " + "Added after the second round of seeded changes: family 'weak cut' (two ohm-sized blocks joined by one resistor of 1e4 .. 1e8, units 1 / 1e3 / 1e-3): only-path resistor, series law across the cut, block values, Foster, average effective resistance, tolerance 30 eps cond(L).")
+
 RT = 1e-9
 
 
